@@ -5,6 +5,8 @@ of VERIF_REPO through clang's JSON AST:
   * the fit test of FixedBuffer::append and the headroom tests of formatInteger (every
     instantiation), operator<<(const void*) and operator<<(double),
   * the level gates of the LOG_* macros (a probe translation unit that uses each macro),
+  * Logger::Impl::formatTime: cache refresh test, time format, the two zone branches (formats and
+    lengths), the sizes of t_time and t_errnobuf,
   * the threshold ladders of formatSI (integer bounds) and formatIEC (double bounds, emitted
     as exact rationals), with precision, divisor and unit text of every rung.
 Every fact echoes what was matched.  A piece that cannot be translated is emitted as the
@@ -320,6 +322,77 @@ def ladder(name):
     return rungs
 
 
+def array_size(relfile, qual):
+    short = qual.split("::")[-1]
+    for d in cxxast.dump(relfile, qual):
+        for v in cxxast.find(d, "VarDecl", short):
+            m = re.match(r"^char\s*\[(\d+)\]$", (v.get("type") or {}).get("qualType", ""))
+            if m:
+                return int(m.group(1))
+    raise Untranslatable("char array " + qual)
+
+
+def logger_time():
+    """Logger::Impl::formatTime: the refresh test of the per-thread second cache, the snprintf format of
+    t_time, and per branch of `if (g_logTimeZone.valid())` the Fmt format of the microseconds and the
+    two lengths streamed (T(t_time, N), T(us.data(), M)); plus the sizes of t_time and t_errnobuf."""
+    ms = methods_named(LG_CC, "muduo::Logger::Impl::formatTime")
+    if len(ms) != 1:
+        raise Untranslatable("formatTime: %d bodies" % len(ms))
+    ifs = [st for st in kids(cxxast.body(ms[0])) if st.get("kind") == "IfStmt"]
+    if len(ifs) != 2:
+        raise Untranslatable("formatTime: %d top-level ifs" % len(ifs))
+    res = {}
+    # (a) if (seconds != t_lastSecond) { t_lastSecond = seconds; ... snprintf(t_time, sizeof(t_time), FORMAT, ...) }
+    c = strip(kids(ifs[0])[0])
+    if c.get("kind") != "BinaryOperator" or not (mentions(c, decl="seconds") and mentions(c, decl="t_lastSecond")):
+        raise Untranslatable("formatTime: first if does not compare seconds with t_lastSecond")
+    res["refresh_op"] = c.get("opcode")
+    if len(kids(ifs[0])) != 2:
+        raise Untranslatable("formatTime: refresh if has an else")
+    then = kids(ifs[0])[1]
+    first = strip(kids(then)[0])
+    if not (first.get("kind") == "BinaryOperator" and first.get("opcode") == "=" and mentions(kids(first)[0], decl="t_lastSecond")
+            and mentions(kids(first)[1], decl="seconds")):
+        raise Untranslatable("formatTime: the refresh branch does not start with t_lastSecond = seconds")
+    calls = [n for n in walk(then) if n.get("kind") == "CallExpr" and mentions(kids(n)[0], decl="snprintf")]
+    if len(calls) != 1 or not mentions(kids(calls[0])[1], decl="t_time") or not mentions(kids(calls[0])[2], decl="t_time"):
+        raise Untranslatable("formatTime: snprintf(t_time, sizeof t_time, ...)")
+    fm = [unquote(x["value"]) for x in walk(kids(calls[0])[3]) if x.get("kind") == "StringLiteral"]
+    args = kids(calls[0])[4:]
+    names = [[x.get("name") for x in walk(a) if x.get("kind") == "MemberExpr"] for a in args]
+    if [n[:1] for n in names] != [["year"], ["month"], ["day"], ["hour"], ["minute"], ["second"]]:
+        raise Untranslatable("formatTime: snprintf arguments %r" % names)
+    res["time_fmt"] = fm[0]
+    # (b) if (g_logTimeZone.valid()) {Fmt us(F1, microseconds); stream_ << T(t_time, N1) << T(us.data(), M1);} else {...}
+    c = strip(kids(ifs[1])[0])
+    if not (c.get("kind") == "CXXMemberCallExpr" and mentions(c, member="valid") and mentions(c, decl="g_logTimeZone")):
+        raise Untranslatable("formatTime: second if is not g_logTimeZone.valid()")
+    if len(kids(ifs[1])) != 3:
+        raise Untranslatable("formatTime: zone if without else")
+    for key, br in (("zone", kids(ifs[1])[1]), ("utc", kids(ifs[1])[2])):
+        sts = kids(br)
+        if not sts or sts[0].get("kind") != "DeclStmt" or not mentions(sts[0], decl="microseconds"):
+            raise Untranslatable("formatTime %s branch: no Fmt us(.., microseconds)" % key)
+        f = [unquote(x["value"]) for x in walk(sts[0]) if x.get("kind") == "StringLiteral"]
+        if len(f) != 1:
+            raise Untranslatable("formatTime %s branch: format literal" % key)
+        last = sts[-1]
+        if not (mentions(last, member="stream_") and mentions(last, decl="t_time") and mentions(last, member="data")):
+            raise Untranslatable("formatTime %s branch: last statement is not stream_ << T(t_time, ..) << T(us.data(), ..)" % key)
+        ints = [int(x["value"]) for x in walk(last) if x.get("kind") == "IntegerLiteral"]
+        if len(ints) != 2:
+            raise Untranslatable("formatTime %s branch: lengths %r" % (key, ints))
+        res[key] = (f[0], ints[0], ints[1])
+    for fmt in (res["time_fmt"], res["zone"][0], res["utc"][0]):
+        t = bytes(fmt).decode("latin1")
+        if re.sub(r"%0?[1-9]?d", "", t).count("%"):
+            raise Untranslatable("format %r uses a conversion other than %%[0][w]d" % t)
+    res["t_time_size"] = array_size(LG_CC, "muduo::t_time")
+    res["errnobuf_size"] = array_size(LG_CC, "muduo::t_errnobuf")
+    return res
+
+
 def coq_rung(r):
     bound, info, src = r
     b = "Else" if bound is None else "%s (%d) (%d)" % ("OnInt" if bound[0] == "int" else "OnDouble", bound[1], bound[2])
@@ -333,6 +406,8 @@ DEFAULT = {
                [list(x) for x in (b"TRACE ", b"DEBUG ", b"INFO  ", b"WARN  ", b"ERROR ", b"FATAL ")]),
     "fit": {"append": (">?", "default"), "integer": (">=?", "default"), "pointer": (">=?", "default"),
             "double": (">=?", "default"), "double_fmt": "%.12g"},
+    "time": {"refresh_op": "!=", "time_fmt": list(b"%4d%02d%02d %02d:%02d:%02d"), "zone": (list(b".%06d "), 17, 8),
+             "utc": (list(b".%06dZ "), 17, 9), "t_time_size": 64, "errnobuf_size": 512},
     "gates": {"LOG_TRACE": ("(cfg <=? Logger_TRACE)", "default"), "LOG_DEBUG": ("(cfg <=? Logger_DEBUG)", "default"),
               "LOG_INFO": ("(cfg <=? Logger_INFO)", "default"), "LOG_WARN": ("true", "default"),
               "LOG_ERROR": ("true", "default"), "LOG_FATAL": ("true", "default"),
@@ -402,6 +477,22 @@ def main():
     for m in MACROS:
         out += ["(* Logging.h #define %s %s *)" % (m, g[m][1].replace("(*", "( *").replace("*)", "* )")),
                 "Definition gate_%s (cfg : Z) : bool := %s." % (m, g[m][0])]
+    lt = attempt("Logger::Impl::formatTime", logger_time) or DEFAULT["time"]
+    out += ["", "(* Logging.cc Logger::Impl::formatTime: `if (seconds %s t_lastSecond)` refreshes the per-thread cache with" % lt["refresh_op"],
+            "   snprintf(t_time, sizeof(t_time), time_format, year, month, day, hour, minute, second); then",
+            "   if (g_logTimeZone.valid()) Fmt us(us_format_zone, microseconds), stream_ << T(t_time, time_len_zone) << T(us.data(), us_len_zone)",
+            "   else                       Fmt us(us_format_utc, microseconds),  stream_ << T(t_time, time_len_utc)  << T(us.data(), us_len_utc) *)",
+            "Definition cache_refresh_is_ne : bool := %s." % ("true" if lt["refresh_op"] == "!=" else "false"),
+            "Definition time_format : list byte := %s." % bl(lt["time_fmt"]),
+            "Definition us_format_zone : list byte := %s." % bl(lt["zone"][0]),
+            "Definition time_len_zone : Z := (%d)." % lt["zone"][1],
+            "Definition us_len_zone : Z := (%d)." % lt["zone"][2],
+            "Definition us_format_utc : list byte := %s." % bl(lt["utc"][0]),
+            "Definition time_len_utc : Z := (%d)." % lt["utc"][1],
+            "Definition us_len_utc : Z := (%d)." % lt["utc"][2],
+            "(* Logging.cc: __thread char t_time[..]; __thread char t_errnobuf[..] (strerror_tl's buffer) *)",
+            "Definition Logging_t_time_size : Z := (%d)." % lt["t_time_size"],
+            "Definition Logging_errnobuf_size : Z := (%d)." % lt["errnobuf_size"]]
     out += ["", "(* one rung: (the test, what is printed).  OnInt: `s < num/den` on the integer; OnDouble: `double(s) < num/den`",
             "   (num/den = exact value of the folded double constant); Else = final else *)",
             "Inductive rung_test := OnInt (num den : Z) | OnDouble (num den : Z) | Else.",
